@@ -1683,6 +1683,10 @@ class FlowProposal(RejectionProposal):
                     old_weights_file = weights_file + ".old"
                     if os.path.exists(old_weights_file):
                         self.flow.reload_weights(old_weights_file)
+            elif os.path.exists(weights_file + ".old"):
+                # Killed after the previous file was moved but before the
+                # new file was created.
+                self.flow.reload_weights(weights_file + ".old")
         else:
             logger.warning("Could not reload weights for flow")
 
